@@ -110,6 +110,89 @@ fn use_key<V: Full>(kk: KK, bytes: &[u8], fx: &Fixtures) -> u64 {
     n
 }
 
+
+/// every combination of boundary values in the cost-parameter field of a well-formed password-wrapped blob
+fn pbkw_parameter_grid<V: Full>(prop: &mut Property) {
+    let name = V::NAME;
+    let grid: Vec<Vec<u8>> = if V::VER == 1 || V::VER == 3 {
+        [0u32, 1, 2, 255, 256, 10_000].iter().map(|i| i.to_be_bytes().to_vec()).collect()
+    } else {
+        let mems: [u64; 9] = [0, 1, 1023, 8191, 8192, 9217, 65536, 1 << 26, u64::MAX];
+        let times: [u32; 4] = [0, 1, 3, u32::MAX];
+        let paras: [u32; 14] = [0, 1, 2, 3, 255, 1 << 16, (1 << 24) - 1, 1 << 24, (1 << 29) - 1, 1 << 29, 1 << 30, 1 << 31, (1 << 31) + 1, u32::MAX];
+        let mut v = Vec::new();
+        for m in mems {
+            for t in times {
+                for p in paras {
+                    v.push([&m.to_be_bytes()[..], &t.to_be_bytes()[..], &p.to_be_bytes()[..]].concat());
+                }
+            }
+        }
+        v
+    };
+    let grid = std::sync::Arc::new(grid);
+    prop.subs.push(
+        Sub::new(
+            format!("{name}/pbkw-parameter-grid"),
+            grid.len() as u64,
+            "well-formed k*.local-pw / k*.secret-pw blobs whose cost-parameter field takes every combination of boundary values (k2/k4: memory {0, 1, 1023, 8191, 8192, 9217, 64 KiB, 64 MiB, 2^64-1} x passes {0, 1, 3, 2^32-1} x lanes {0, 1, 2, 3, 255, 2^16, 2^24-1, 2^24, 2^29-1, 2^29, 2^30, 2^31, 2^31+1, 2^32-1}; k1/k3: iterations {0, 1, 2, 255, 256, 10000}): parse, params(), and, inside the cost budget (memory <= 64 MiB, passes <= 3), unwrap with two passwords and wrap with these parameters: Ok or Err, never a panic",
+            move |idx, describe| {
+                let pbytes = &grid[idx as usize];
+                let mut o = Outcome::new();
+                o.evals = 0;
+                if describe {
+                    o.sample = Some(json!({"backend": name, "parameters": hex::encode(pbytes)}));
+                }
+                let in_budget = params_in_budget(V::VER, pbytes);
+                let (sl, nl, tl) = if V::VER == 1 || V::VER == 3 { (32, 16, 48) } else { (16, 24, 32) };
+                for (kind, klen) in [("local-pw", 32usize), ("secret-pw", 64)] {
+                    let body = [&vec![0x11u8; sl][..], &pbytes[..], &vec![0x22u8; nl][..], &vec![0x33u8; klen][..], &vec![0x44u8; tl][..]].concat();
+                    let s = format!("k{}.{kind}.{}", V::VER, b64(&body));
+                    o.evals += 1;
+                    let r = subject(|| {
+                        let mut used = 0;
+                        if kind == "local-pw" {
+                            if let Ok(p) = PasswordWrappedKey::<V, Local>::from_str(&s) {
+                                let _ = p.to_string();
+                                let _ = p.params();
+                                if in_budget {
+                                    let _ = p.unwrap(b"password");
+                                    if let Ok(p2) = PasswordWrappedKey::<V, Local>::from_str(&s) {
+                                        let _ = p2.unwrap(b"");
+                                    }
+                                }
+                                used += 1;
+                            }
+                        } else if let Ok(p) = PasswordWrappedKey::<V, Secret>::from_str(&s) {
+                            let _ = p.to_string();
+                            let _ = p.params();
+                            if in_budget {
+                                let _ = p.unwrap(b"password");
+                            }
+                            used += 1;
+                        }
+                        // and wrapping with the same parameters
+                        if in_budget && kind == "local-pw" {
+                            let params = backends::params_from_bytes::<V>(pbytes);
+                            let _ = keys::local::<V>(&[7u8; 32]).password_wrap_with_params(b"password", &params).map(|w| w.to_string());
+                            used += 1;
+                        }
+                        used
+                    });
+                    match r {
+                        Ok(n) if n > 0 => o.class(if in_budget { "executed" } else { "parsed-only-over-budget" }),
+                        Ok(_) => o.class("rejected-at-parse"),
+                        Err(p) => o.violate(format!("{name}/pbkw-parameter-grid/panic"), format!("panic with cost parameters {}: {p}", hex::encode(pbytes)), json!({"string": s})),
+                    }
+                }
+                o.nontrivial = o.evals;
+                o
+            },
+        )
+        .witness(&["executed"]),
+    );
+}
+
 fn pw_budget_ok<V: Full>(s: &str) -> bool {
     match crate::pk::split(s) {
         Some((_, body)) => {
@@ -590,7 +673,13 @@ pub fn build(ctx: &Ctx) -> Property {
     parser_sweep(&mut p, ctx);
     key_bytes_sweep(&mut p, ctx);
     claims_validators(&mut p);
-    p.assume("password-wrapped blobs are unwrapped only when their cost parameters are inside the stated budget (<= 64 MiB, <= 3 passes, parallelism <= 4 / <= 10000 iterations); the others are parsed, displayed and asked for params() only, and counted in skipped_over_budget");
+    pbkw_parameter_grid::<backends::V1>(&mut p);
+    pbkw_parameter_grid::<backends::V2>(&mut p);
+    pbkw_parameter_grid::<backends::V3>(&mut p);
+    pbkw_parameter_grid::<backends::V3L>(&mut p);
+    pbkw_parameter_grid::<backends::V4>(&mut p);
+    pbkw_parameter_grid::<backends::V4S>(&mut p);
+    p.assume("password-wrapped blobs are unwrapped only when their cost parameters are inside the stated budget (<= 64 MiB, <= 3 passes, any number of lanes / <= 10000 iterations); the others are parsed, displayed and asked for params() only, and counted in skipped_over_budget");
     p.assume("oracle is 'returns Ok or Err': Rust panics are caught per call; an abort or fatal signal kills the run and is attributed by the driver's single-threaded trace re-run; invalid memory accesses inside the C libraries are additionally looked for by the valgrind pass of the thorough tier");
     p
 }
